@@ -579,6 +579,32 @@ func (b *BaseStore) Load(ctx context.Context, amount int) error {
 				return
 			}
 
+			// an entry written for another log must never be handed to Join, which
+			// would merge it as a head without verifying it (the replicator drops
+			// such entries the same way): only the entries of this log are joined
+			var own []ipfslog.Entry
+			for _, e := range l.GetEntries().Slice() {
+				if e.GetLogID() == oplog.GetID() {
+					own = append(own, e)
+				}
+			}
+
+			if len(own) != l.GetEntries().Len() {
+				l, inErr = ipfslog.NewLog(b.IPFS(), b.Identity(), &ipfslog.LogOptions{
+					ID:               oplog.GetID(),
+					AccessController: b.AccessController(),
+					SortFn:           b.SortFn(),
+					IO:               b.options.IO,
+					Entries:          entry.NewOrderedMapFromEntries(own),
+				})
+
+				if inErr != nil {
+					span.AddEvent("store-head-loading-error")
+					err = fmt.Errorf("unable to create log from entries: %w", inErr)
+					return
+				}
+			}
+
 			b.recalculateReplicationStatus(h.GetClock().GetTime())
 
 			span.AddEvent("store-head-loaded")
